@@ -43,13 +43,18 @@ def shift_block(arm_body):
             elif hir.local_name(r) == 'qs':
                 out.append('qs.remove(%s)' % hir.pp(c['args'][0]))
     for n in hir.nodes(arm_body):
-        if n.get('k') == 'For' and 'iter_mut' in hir.pp(n['iter']) and 'qs' in hir.pp(n['iter']):
-            for i in hir.find(n['body'], 'If'):
-                c = hir.strip(i['cond'])
+        if n.get('k') == 'For' and ('iter_mut' in hir.pp(n['iter']) or 'values_mut' in hir.pp(n['iter'])) and 'qs' in hir.pp(n['iter']):
+            # the comparison that selects the entries to shift: an `if` in the body or a `.filter(|e| ..)` on the iterator
+            conds = [hir.strip(i['cond']) for i in hir.find(n['body'], 'If')]
+            for c2 in hir.calls(n['iter']):
+                if c2.get('k') == 'MethodCall' and c2['name'] == 'filter' and c2['args'] and hir.strip(c2['args'][0]).get('k') == 'Closure':
+                    conds.append(hir.strip(hir.strip(c2['args'][0])['body']))
+            upd = [x for x in hir.nodes(n['body']) if x.get('k') == 'AssignOp']
+            for c in conds:
                 if c.get('k') == 'Binary':
                     rhs = 'SLOT' if slot and hir.local(c['r']) and hir.local(c['r'])[1] == slot[1] else hir.pp(c['r'])
-                    upd = [hir.pp(x) for x in hir.nodes(i['then']) if x.get('k') == 'AssignOp']
-                    out.append('for each entry e of the map: if e %s %s { %s }' % (hir.BINOP.get(c['op'], c['op']), rhs, '; '.join(upd)))
+                    amount = hir.lit_int(hir.strip(upd[0]['r'])) if len(upd) == 1 else None
+                    out.append('for each entry e of the map: if e %s %s { e %s %s }' % (hir.BINOP.get(c['op'], c['op']), rhs, {'SubAssign': '-=', 'AddAssign': '+='}.get(upd[0]['op'], '?=') if len(upd) == 1 else '?', amount))
     return out
 
 
@@ -63,9 +68,11 @@ def finalisation(f):
     if loop_idx is None:
         return None
     qs_id = None
-    for s in st[:loop_idx]:
-        if s.get('k') == 'Let' and s['pat'].get('k') == 'Bind' and s['pat']['name'] == 'qs':
-            qs_id = s['pat']['id']
+    for c in hir.calls(st[loop_idx]):
+        if hir.callee(c) == ATG:
+            for a in c['args']:
+                if 'HashMap' in (hir.strip(a).get('ty') or '') and hir.local(hir.strip(a)):
+                    qs_id = hir.local(hir.strip(a))[1]
     after = st[loop_idx + 1:]
     reads = [n for s in after for n in hir.nodes(s) if hir.local(n) and hir.local(n)[1] == qs_id] if qs_id else []
     d = {'map-read-after-loop': bool(reads), 'set_outputs': False, 'gather': False, 'qubit-order': False}
@@ -98,6 +105,66 @@ def finalisation(f):
                 if any(hir.local(x) and hir.local(x)[1] == qs_id for x in hir.nodes(idx)):
                     d['scatter'] = True
     return d
+
+
+def finalisation_semantics(f):
+    """what the statements after the gate loop install as outputs, evaluated on concrete qubit -> slot maps (identity, a transposition, both 3-cycles, a map with
+    a forgotten qubit): the result must be old_outputs[map[q]] for q in ascending qubit order.  Returns (ok | None, message, sample)."""
+    from .. import minirust as M
+    st = hir.stmts_of(f['hir'])
+    loop_idx = None
+    call = None
+    for i, s_ in enumerate(st):
+        if s_.get('k') == 'For':
+            cs = [c for c in hir.calls(s_) if hir.callee(c) == ATG]
+            if cs:
+                loop_idx, call = i, cs[0]
+    if loop_idx is None:
+        return None, 'the gate loop (for g in gates { g.add_to_graph(..) }) was not found', None
+    atg = call['args']
+    locs = [hir.local(hir.strip(a)) for a in atg]
+    # parameters of add_to_graph: (fresh_var, graph, qs, postselect) — identified by type
+    gid = qid = None
+    for a, l in zip(atg, locs):
+        t = hir.strip(a).get('ty') or ''
+        if l and 'HashMap' in t:
+            qid = l[1]
+        elif l and ('Graph' in t or t.strip('&mut ').strip() in ('G',)):
+            gid = l[1]
+    if qid is None or gid is None:
+        return None, 'the qubit -> slot map / the graph handed to add_to_graph were not identified', None
+    after = st[loop_idx + 1:]
+    cases = [{0: 0, 1: 1, 2: 2}, {0: 1, 1: 0, 2: 2}, {0: 1, 1: 2, 2: 0}, {0: 2, 1: 0, 2: 1}, {0: 1, 2: 0}]
+    tried = 0
+    for qs in cases:
+        nslots = max(qs.values()) + 1
+        old = ['out%d' % k for k in range(nslots)]
+        state = {'outputs': list(old), 'set': None}
+
+        def set_outputs(a, state=state):
+            state['outputs'] = list(a[0])
+            state['set'] = list(a[0])
+        g = M.Obj('graph', {'outputs': lambda a, state=state: state['outputs'], 'set_outputs': set_outputs, 'outputs_mut': lambda a, state=state: state['outputs']})
+        env = {qid: dict(qs), gid: g}
+        it = M.Interp()
+        try:
+            for s_ in after:
+                it.stmt(s_, env)
+                if state['set'] is not None:
+                    break
+        except M.NoEval as ex:
+            if state['set'] is None:
+                return None, 'the statements that finalise the outputs are not evaluable by the rule (%s)' % ex, None
+        except (M._Return, M._Break, M._Continue):
+            pass
+        if state['set'] is None:
+            return False, 'after the gate loop the outputs are never re-installed from the qubit -> slot map: the relabelling done by SWAP gates is lost', {'map': qs}
+        want = [old[qs[q]] for q in sorted(qs)]
+        tried += 1
+        if state['set'] != want:
+            return False, ('for the qubit -> slot map %s the outputs installed after the gate loop are %s, expected %s (old_outputs[map[q]] in ascending qubit order; a scatter new[map[q]] = old[q] is the inverse permutation)'
+                           % (qs, state['set'], want)), {'map': qs}
+    return True, '', {'maps_evaluated': tried}
 
 
 def scalar_writes(f):
@@ -192,9 +259,9 @@ def _run_own(ck):
     # ---- D2
     a = shift_block(arms['PostSelect']['body'])
     b = shift_block(arms['Measure']['body'])
-    ck.ob('R-SIB', 'PostSelect~Measure/index-shift', a == b and len(a) >= 3, ck.site(ATG), 'the post-selection and measurement arms must perform the same remove-output / forget-qubit / shift block: %s vs %s' % (a, b), sample={'block': a})
+    ck.ob3('R-SIB', 'PostSelect~Measure/index-shift', None if (len(a) < 3 and len(b) < 3) else (a == b and len(a) >= 3), ck.site(ATG), 'the post-selection and measurement arms must perform the same remove-output / forget-qubit / shift block: %s vs %s' % (a, b), sample={'block': a})
     want_shift = ['outputs.remove(SLOT)', 'qs.remove(&self.qs[0])', 'for each entry e of the map: if e > SLOT { (*v1 -= 1) }']
-    ck.ob('R-SIB', 'PostSelect/index-shift-keyed-by-slot', any('> SLOT' in x for x in a) and 'outputs.remove(SLOT)' in a, ck.site(ATG), 'entries above the removed output SLOT must shift down by one: %s' % a)
+    ck.ob3('R-SIB', 'PostSelect/index-shift-keyed-by-slot', None if len(a) < 3 else (any('> SLOT' in x for x in a) and 'outputs.remove(SLOT)' in a), ck.site(ATG), 'entries above the removed output SLOT must shift down by one: %s' % a)
     f = ck.fn(TGO)
     d = finalisation(f)
     if d is None:
@@ -202,8 +269,9 @@ def _run_own(ck):
     else:
         ck.ob('R-DATAFLOW', 'to_graph_with_options/map-consumed', d['map-read-after-loop'] and d['set_outputs'], ck.site(TGO),
               'SWAP only relabels the qubit->output-slot map, but the map is never read after the gate loop: swaps are silently lost', sample=d)
-        ck.ob('R-DATAFLOW', 'to_graph_with_options/gather-in-qubit-order', d['gather'] and d['qubit-order'] and not d.get('scatter'), ck.site(TGO),
-              'the final outputs must be gathered in qubit order as old_outputs[map[q]] (a scatter new[map[q]] = old[k] applies the inverse permutation): %s' % d)
+    # what is installed, decided by evaluating the finalising statements on concrete maps (independent of how they are spelled)
+    okf, msgf, samplef = finalisation_semantics(f)
+    ck.ob3('R-DATAFLOW', 'to_graph_with_options/gather-in-qubit-order', okf, ck.site(TGO), msgf, sample=samplef)
     swap = arms['SWAP']['body']
     ins = [c for c in hir.calls(swap) if c.get('k') == 'MethodCall' and c['name'] == 'insert' and hir.local_name(c['recv']) == 'qs']
     ok = False
